@@ -79,7 +79,8 @@ func ParsePPSNALUnit(data []byte, spsMap map[uint32]*SPS) (*PPS, error) {
 				pps.RunLengthMinus1 = append(pps.RunLengthMinus1, rl)
 			}
 		case 2:
-			for iGroup := uint(0); iGroup <= pps.NumSliceGroupsMinus1; iGroup++ {
+			// top_left / bottom_right are present for iGroup < num_slice_groups_minus1 (7.3.2.2)
+			for iGroup := uint(0); iGroup < pps.NumSliceGroupsMinus1; iGroup++ {
 				tl := reader.ReadExpGolomb()
 				pps.TopLeft = append(pps.TopLeft, tl)
 				br := reader.ReadExpGolomb()
